@@ -124,7 +124,9 @@ fn has_nested_option(t: &Ty) -> bool {
 
 const FIELD_NAMES: &[&str] = &["id", "name", "value", "count", "user_id", "data2", "x", "is_ok", "items", "r#type", "kind", "a_b_c", "mode", "r#match", "label", "type_", "len_", "x__y"];
 const VARIANT_NAMES: &[&str] = &["Active", "Inactive", "Unknown", "V2", "NotOK", "Pending", "A", "IPv6", "Done"];
-const DOCS: &[&str] = &["The identifier", "a value; with (punctuation): #1", "unicode \u{e9}\u{4e16}", "two  spaces inside", "x", "See https://example.org/a?b=c", "", "last paragraph"];
+const DOCS: &[&str] = &["The identifier", "a value; with (punctuation): #1", "unicode \u{e9}\u{4e16}", "two  spaces inside", "x", "See https://example.org/a?b=c", "", "last paragraph",
+    // Markdown's hard line break (two trailing blanks), a trailing tab, a rustdoc heading
+    "ends with a hard break  ", "tab at the end\t", "# Errors", "## x"];
 
 fn docs(rng: &mut Rng, indent: &str) -> (String, Vec<String>) {
     let mut src = String::new();
